@@ -10,6 +10,7 @@ mod lin;
 mod model;
 mod report;
 mod seq;
+mod ttlx;
 
 use exec::Clock;
 use genr::{conc_plan, mix, seq_plan};
@@ -167,6 +168,21 @@ async fn shard_main(cfg: Cfg, shard: usize, q: Quota, t_start: Instant) -> Stats
             break;
         }
         let first = round == 0 && sample_shard;
+        // TTL scenarios, phase A (short TTLs that run out during the round's pause; see ttlx.rs), and the probe of the
+        // instant at which a one-second record stops being live (runs concurrently with the rest of the round)
+        let mut ttl_scenarios: Vec<ttlx::Scenario> = Vec::new();
+        for i in 0..6 {
+            let hseed = next_seed(6);
+            if i % 2 == 0 {
+                ttl_scenarios.push(ttlx::Scenario::phase_a(Arc::new(InMemorySessionStore::new()), "memory", None, hseed, &mut stats).await);
+            } else if let Ok((store, pool)) = sqlite_memory_store().await {
+                ttl_scenarios.push(ttlx::Scenario::phase_a(store, "sqlite", Some(pool), hseed, &mut stats).await);
+            }
+        }
+        let probe = match sqlite_memory_store().await {
+            Ok((store, pool)) => Some(tokio::spawn(ttlx::boundary_probe(store, pool, next_seed(7)))),
+            Err(_) => None,
+        };
         // aged batch, phase A
         let mut aged: Vec<SeqRun> = Vec::new();
         for _ in 0..q.aged {
@@ -223,6 +239,14 @@ async fn shard_main(cfg: Cfg, shard: usize, q: Quota, t_start: Instant) -> Stats
         for (i, mut r) in aged.into_iter().enumerate() {
             r.run_until(usize::MAX, &mut stats, &clock).await;
             r.finish(&mut stats, first && i == 0).await;
+        }
+        for sc in ttl_scenarios {
+            sc.phase_b(&mut stats).await;
+        }
+        if let Some(h) = probe {
+            if let Ok(Ok(st)) = tokio::time::timeout(Duration::from_secs(10), h).await {
+                stats.merge(st);
+            }
         }
         stats.add("rounds_completed", 1);
         if out_of_time(0.9) {
